@@ -57,6 +57,28 @@ fn p_res_methods() {
     kani::cover!(model.is_ok(), "Ok");
     kani::cover!(model.is_err(), "Err");
 }
+struct Pz;
+impl Drop for Pz { fn drop(&mut self) { unsafe { DROPS += 1 } } }
+#[repr(align(64))]
+struct Pal { v: u32, heap: Box<u8> }
+impl Drop for Pal { fn drop(&mut self) { unsafe { DROPS += 1 } } }
+fn res_class<T, E>(mkt: fn() -> T, mke: fn() -> E) {
+    let ok: bool = kani::any();
+    let r: Result<T, E> = if ok { Ok(mkt()) } else { Err(mke()) };
+    let c: CResult<T, E> = r.into();
+    assert!(c.is_ok() == ok && c.is_err() == !ok && c.as_ref().is_ok() == ok, "C12 From<Result> keeps the variant (any payload class)");
+    let back: Result<T, E> = c.into();
+    assert!(back.is_ok() == ok && drops() == 0, "C12 conversions move the payload without dropping (any payload class)");
+    let c2: CResult<T, E> = back.into();
+    let o = c2.ok();
+    assert!(o.is_some() == ok && drops() == !ok as u32, "C12 ok() keeps the Ok payload and drops only a discarded Err payload (any payload class)");
+    drop(o);
+    assert!(drops() == 1, "C12 payload dropped exactly once (any payload class)");
+    kani::cover!(ok, "ok");
+    kani::cover!(!ok, "err");
+}
+#[kani::proof] fn p_res_class_zst_aligned() { res_class::<Pz, Pal>(|| Pz, || Pal { v: 1, heap: Box::new(2) }); }
+#[kani::proof] fn p_res_class_aligned_zst() { res_class::<Pal, Pz>(|| Pal { v: 1, heap: Box::new(2) }, || Pz); }
 //@ prefix=p_res_unwrap_err kind=panic clause=CResult::Err.unwrap() panics
 #[kani::proof]
 #[kani::should_panic]
